@@ -372,6 +372,59 @@ BOND_TIE_KEY = 'canon-differs:bond-order-tie'
 BOND_TIE_REPLAY = ("from chython import smiles; a=smiles('C1=CC=C1'); b=smiles('C=1C=CC=1'); print(str(a), str(b), a == b, hash(a) == hash(b))")
 
 
+# genuine defect of the pinned code (reported by an independent engineer, /repo frozen): components that are NOT isomorphic but whose atoms
+# are pairwise Weisfeiler-Lehman equivalent (disjoint regular rings of different size with one repeating unit: C3 + C6, 12-crown-4 +
+# 18-crown-6, S6 + S8, D3 + D4 cyclosiloxanes) get the same Morgan classes - `_morgan` has no component-level information, Element.__hash__
+# has in_ring but no ring size - and `_smiles` then picks the first component by set order: the ORDER OF THE COMPONENTS in the string
+# follows atom numbers / input order
+WL_TIE_KEY = 'canon-differs:wl-equivalent-components'
+WL_TIE_REPLAY = ("from chython import smiles; a=smiles('C1CC1.C1CCCCC1'); b=smiles('C1CCCCC1.C1CC1'); print(str(a), str(b), a == b, hash(a) == hash(b))")
+# pairs / triples of regular ring components of different size with one repeating unit, also next to an ordinary third component
+WL_COMPONENTS = [
+    'C1CC1.C1CCCCC1', 'C1CCC1.C1CCCC1', 'C1COCCOCCOCCO1.C1COCCOCCOCCOCCOCCO1', 'S1SSSSS1.S1SSSSSSS1',
+    'C[Si]1(C)O[Si](C)(C)O[Si](C)(C)O1.C[Si]1(C)O[Si](C)(C)O[Si](C)(C)O[Si](C)(C)O1', 'C1CNCCNCCN1.C1CNCCNCCNCCN1',
+    'C1CC1.C1CCC1.C1CCCCC1', 'C1CC1.C1CCCCC1.CCO', 'C1CCCC1.C1CCCCCCC1.[Na+].[Cl-]', 'C1COCCO1.C1COCCOCCO1.c1ccccc1', 'FC1(F)C(F)(F)C1(F)F.FC1(F)C(F)(F)C(F)(F)C1(F)F',
+    'C1CCCCC1.C1CC1', 'O1CCOCCOCCOCCOCC1.O1CCOCCOCC1',
+]
+
+
+def mol_components(mol):
+    """connected components as sets of atom numbers (own traversal of _bonds)"""
+    left = set(mol._atoms)
+    out = []
+    while left:
+        s = left.pop()
+        comp = {s}
+        stack = [s]
+        while stack:
+            x = stack.pop()
+            for y in mol._bonds[x]:
+                if y not in comp:
+                    comp.add(y)
+                    stack.append(y)
+        left -= comp
+        out.append(comp)
+    return out
+
+
+def wl_equivalent_components(mol):
+    """the mechanism, recognised on the molecule alone and without the library's Morgan code: two connected components with a DIFFERENT
+    number of atoms (hence not isomorphic) such that the own exact colour refinement (1-WL on element, isotope, charge, radical,
+    implicit H, ring membership and bond orders) gives the two components the same SET of classes - every atom of one has a
+    WL-equivalent atom in the other, as for disjoint rings built from one repeating unit"""
+    comps = mol_components(mol)
+    if len(comps) < 2:
+        return False
+    cls = own_classes(mol)
+    sig = [(len(c), frozenset(cls[n] for n in c)) for c in comps]
+    return any(a[1] == b_[1] and a[0] != b_[0] for a, b_ in itertools.combinations(sig, 2))
+
+
+def same_components(s0, s1):
+    """two SMILES strings that differ at most in the order of their dot-separated components (CXSMILES suffix: same length only)"""
+    a, b_ = s0.split(' ', 1), s1.split(' ', 1)
+    return sorted(a[0].split('.')) == sorted(b_[0].split('.')) and len(a) == len(b_)
+
 # genuine defect of the pinned code (found by fin-C15, C01's territory): CPython has hash(-1) == hash(-2) == -2 and Element.__hash__
 # puts the raw charge into the hashed tuple, so two atoms that differ ONLY in charge -1 / -2 get one Morgan invariant
 CHARGE_TIE_KEY = 'canon-differs:hash-collision-charge--1--2'
@@ -430,6 +483,15 @@ class Searcher:
             ck.counterexample(f'eq-hash-incoherent:{kind}:{smi}', '== / hash disagree with the canonical strings',
                               {'smiles': smi, 'how': kind, 'detail': detail}, {'str': [s0, s1], 'eq': eq, 'hash_eq': heq},
                               'eq <-> equal strings, equal -> equal hash', 'definition of __eq__/__hash__', replay_py=replay_py)
+            return False
+        if same_components(s0, s1) and wl_equivalent_components(base) and wl_equivalent_components(other) and not ck.charge_tie:
+            # known finding: only the ORDER of the components differs and the molecule has WL-equivalent non-isomorphic components
+            ck.count('search:wl-equivalent-components-finding')
+            ck.counterexample(WL_TIE_KEY, 'two descriptions of one structure have canonical SMILES that differ in the order of their components: '
+                              'two non-isomorphic components have pairwise Weisfeiler-Lehman equivalent atoms, Morgan gives them the same classes '
+                              'and the writer picks the first component by set order', {'smiles': smi, 'how': kind, 'detail': detail}, [s0, s1],
+                              'equal strings, ==, equal hash', 'structure identity by construction; own colour refinement as classifier',
+                              replay_py=WL_TIE_REPLAY)
             return False
         gaps = gap_classes(base) | gap_classes(other)
         if 'bond-tie' in gaps:
@@ -686,7 +748,7 @@ class Searcher:
                 if format(m4, '!s') != format(mc, '!s') and 'cage' not in gaps:
                     self.rdkit_diff(smi, sp, mc, m4, '!s')
                 continue
-            if str(m4) != str(mc) and not gaps:
+            if str(m4) != str(mc) and not gaps and not (same_components(str(m4), str(mc)) and wl_equivalent_components(mc)):
                 # is it the same molecule for RDKit too?  (aromaticity model differences are not C01's)
                 self.rdkit_diff(smi, sp, mc, m4, '')
             else:
@@ -841,6 +903,21 @@ def search(ck, seeds=None):
         S.one(smi, rng, n_renum=3, n_spell=2, n_rdkit=1)
     for smi in ALLENES:
         S.one(smi, rng, n_renum=4, n_spell=12, n_rdkit=1)
+    # WL-equivalent non-isomorphic components (known finding): as written, with the components swapped, renumbered, re-spelled
+    for smi in WL_COMPONENTS:
+        m = _sm(smi)
+        if not wl_equivalent_components(m):
+            ck.unchecked('WL-equivalent components family', f'{smi}: not recognised by the structural classifier')
+        S.ck.charge_tie = False
+        parts = smi.split('.')
+        for sw in ('.'.join(reversed(parts)), '.'.join(parts[1:] + parts[:1])):
+            ck.case(('search-wl-components', smi, sw), nontrivial=True)
+            S.compare('components-swapped', smi, m, _sm(sw), {'swapped': sw},
+                      f"from chython import smiles; print(str(smiles({smi!r}))); print(str(smiles({sw!r})))")
+        S.one(smi, rng, n_renum=6, n_spell=3, n_rdkit=2)
+    for smi in ('C1CC1.C1CC1', 'C1CCCCC1.CCCCCC', 'C1CC1.C1CC1C', 'CCO.CCCO', 'c1ccccc1.C1CCCCC1'):
+        if wl_equivalent_components(_sm(smi)):
+            ck.unchecked('WL-equivalent components classifier', f'{smi} is wrongly classified (isomorphic or WL-distinguishable components)')
     # labelled centres with an explicit hydrogen atom (generated family): every centre written first, several random spellings
     for smi in explicit_h_centres(random.Random(f'{ck.seed}:c01-hcentres'), 34 if quick else 300):
         S.one(smi, rng, n_renum=2, n_spell=4, n_rdkit=2, n_root=4)
@@ -920,6 +997,9 @@ def search(ck, seeds=None):
             if charge_hash_collision(m):
                 ck.counterexample(CHARGE_TIE_KEY, 'canonical SMILES depends on the numbering (charge -1 / -2 hash collision)', {'smiles': smi},
                                   sorted(strings), 'one string', 'all n! numberings', replay_py=CHARGE_TIE_REPLAY)
+            elif wl_equivalent_components(m) and all(same_components(base, x) for x in strings):
+                ck.counterexample(WL_TIE_KEY, 'canonical SMILES depends on the numbering (order of WL-equivalent components)', {'smiles': smi},
+                                  sorted(strings), 'one string', 'all n! numberings', replay_py=WL_TIE_REPLAY)
             elif 'bond-tie' in gaps:
                 ck.counterexample(BOND_TIE_KEY, 'canonical SMILES depends on the numbering (bond-order tie)', {'smiles': smi}, sorted(strings),
                                   'one string', 'all n! numberings', replay_py=BOND_TIE_REPLAY)
@@ -1537,7 +1617,7 @@ def correspondence(ck):
             pass
     hc_first = hc_first[:8 if quick else 40]
     hc = hc_first + [x for x in hc_all if x not in hc_first][:14 if quick else 60]
-    pool = hc + SPECIAL + GAP_EXAMPLES + LONG + ALLENES[:4] + COORD + CHARGE_TIE + corpus.sample(corpus.lipo(), 100 if quick else 500, ck.seed, 'c01-corr')
+    pool = hc + WL_COMPONENTS[:8] + SPECIAL + GAP_EXAMPLES + LONG + ALLENES[:4] + COORD + CHARGE_TIE + corpus.sample(corpus.lipo(), 100 if quick else 500, ck.seed, 'c01-corr')
     mols = []
     for smi in pool:
         try:
